@@ -12,7 +12,7 @@ pub open spec fn is_query(t: UriElement) -> bool { t is Query }
 //@ props C08 C09 C10
 //@ ret r
 //@ spec
-    ensures r@ == seq![upper_hex((b / 16) as int), upper_hex((b % 16) as int)], //# C09 C10 name=uppercase_hex_pair
+    ensures r@ == seq![upper_hex((b / 16) as int), upper_hex((b % 16) as int)], //# C09 C10 C01 name=uppercase_hex_pair
 //@ bodystart
     proof { assert((b >> 4) & 0xf == b / 16) by (bit_vector); assert(b & 0xf == b % 16) by (bit_vector); }
 //@ end
@@ -21,7 +21,7 @@ pub open spec fn is_query(t: UriElement) -> bool { t is Query }
 //@ props C08 C09 C10
 //@ ret r
 //@ spec
-    ensures r == unreserved(c), //# C09 C10 name=unreserved_set
+    ensures r == unreserved(c), //# C09 C10 C01 name=unreserved_set
 //@ end
 
 /// D6 (open known finding): in Path mode a raw '+' is emitted as %20 instead of %2B. With STRICT_D6 = false the contract of
@@ -37,7 +37,7 @@ pub open spec fn d6_class(s: Seq<u8>, t: UriElement) -> bool { !is_query(t) && !
         (STRICT_D6 || !d6_class(uri_el.spec_bytes(), uri_el_type)) ==> (match res {
             Ok(o) => normal_form(uri_el.spec_bytes(), is_query(uri_el_type)) == Some(str_bytes(o@)),
             Err(e) => normal_form(uri_el.spec_bytes(), is_query(uri_el_type)) is None,
-        }), //# C09 C10 C02 name=normal_form
+        }), //# C09 C10 C02 C01 name=normal_form
         res is Err ==> (if is_query(uri_el_type) { res->Err_0 is MalformedQueryString } else { res->Err_0 is InvalidURIPath }), //# C09 C10 C13 name=error_kind
         res is Ok ==> all_ascii(str_bytes(res->Ok_0@)), //# C08 name=ascii_output
 //@ after 1 `let path_component = uri_el.as_bytes();`
@@ -47,7 +47,7 @@ pub open spec fn d6_class(s: Seq<u8>, t: UriElement) -> bool { !is_query(t) && !
             path_component@ == uri_el.spec_bytes(),
             0 <= i <= path_component@.len(),
             all_ascii(result@),
-            (STRICT_D6 || !d6_class(path_component@, uri_el_type)) ==> norm_from(path_component@, 0, is_query(uri_el_type)) == pre(result@, norm_from(path_component@, i as int, is_query(uri_el_type))), //# C09 C10 C02 name=normal_form_prefix
+            (STRICT_D6 || !d6_class(path_component@, uri_el_type)) ==> norm_from(path_component@, 0, is_query(uri_el_type)) == pre(result@, norm_from(path_component@, i as int, is_query(uri_el_type))), //# C09 C10 C02 C01 name=normal_form_prefix
         decreases path_component@.len() - i
 //@ before 1 `let c = path_component[i];`
         proof {
@@ -83,7 +83,7 @@ pub open spec fn d6_class(s: Seq<u8>, t: UriElement) -> bool { !is_query(t) && !
         (STRICT_D6 || plus_free(path.spec_bytes())) ==> (match res {
             Ok(o) => normal_form(path.spec_bytes(), false) == Some(str_bytes(o@)),
             Err(e) => normal_form(path.spec_bytes(), false) is None,
-        }), //# C09 name=normal_form
+        }), //# C09 C01 name=normal_form
         res is Err ==> res->Err_0 is InvalidURIPath, //# C09 C13 name=error_kind
         res is Ok ==> all_ascii(str_bytes(res->Ok_0@)), //# C08 name=ascii_output
 //@ end
@@ -96,7 +96,7 @@ pub open spec fn d6_class(s: Seq<u8>, t: UriElement) -> bool { !is_query(t) && !
         match res {
             Ok(o) => normal_form(element.spec_bytes(), true) == Some(str_bytes(o@)),
             Err(e) => normal_form(element.spec_bytes(), true) is None,
-        }, //# C10 C02 name=normal_form
+        }, //# C10 C02 C01 name=normal_form
         res is Err ==> res->Err_0 is MalformedQueryString, //# C10 C13 name=error_kind
         res is Ok ==> all_ascii(str_bytes(res->Ok_0@)), //# C08 name=ascii_output
 //@ end
@@ -106,7 +106,7 @@ pub open spec fn d6_class(s: Seq<u8>, t: UriElement) -> bool { !is_query(t) && !
 //@ ret res
 //@ spec
     ensures
-        res@ == collapse_trim(value@), //# C11 C02 name=collapse_trim
+        res@ == collapse_trim(value@), //# C11 C02 C01 name=collapse_trim
         header_normal(res@), //# C11 name=no_leading_trailing_double_space
 //@ loop 1 iter it
         invariant
